@@ -195,6 +195,35 @@ def ops_for(a, m):
             m2.bonds = set(m.bonds) | {(x + nn, y + nn, t) for x, y, t in m.bonds}
         return b, m2
     ops.append(("concatenate a + a", cat))
+    def cat_other(a, m):
+        # documented: the box of the first element that has a box is kept
+        o = a.copy()
+        if o.box is not None:
+            o.box = o.box * 3
+        first = a.copy()
+        first.box = None
+        b = struc.concatenate([first, a, o])
+        nn = m.n()
+        m2 = m.copy()
+        m2.ann = {k: v + v + v for k, v in m.ann.items()}
+        m2.coord = [c + c + c for c in m.coord]
+        if m.bonds is not None:
+            m2.bonds = set(m.bonds) | {(x + nn, y + nn, t) for x, y, t in m.bonds} | {(x + 2 * nn, y + 2 * nn, t) for x, y, t in m.bonds}
+        return b, m2
+    ops.append(("concatenate([boxless copy, a, copy with another box])", cat_other))
+    def add_other(a, m):
+        o = a.copy()
+        if o.box is not None:
+            o.box = o.box * 5
+        b = a + o
+        nn = m.n()
+        m2 = m.copy()
+        m2.ann = {k: v + v for k, v in m.ann.items()}
+        m2.coord = [c + c for c in m.coord]
+        if m.bonds is not None:
+            m2.bonds = set(m.bonds) | {(x + nn, y + nn, t) for x, y, t in m.bonds}
+        return b, m2
+    ops.append(("a + (copy with another box)", add_other))
     def edit(a, m):
         a = a.copy()
         a.res_id[0] = 42
